@@ -26,6 +26,7 @@ theorem decodeStep_complete {c : Nat} {p : NBytes} (r : NBytes) (h : encCp false
   unfold encCp at h
   repeat' split at h
   all_goals try (simp at h; done)
+  all_goals try (rename_i hse; simp at hse; done)
   all_goals (
     simp only [Option.some.injEq] at h
     subst h
@@ -39,14 +40,183 @@ theorem decodeStep_complete {c : Nat} {p : NBytes} (r : NBytes) (h : encCp false
 
 theorem encCp_true_of_false {c : Nat} {p : NBytes} (h : encCp false c = some p) :
     encCp true c = some p := by
-  unfold encCp at h ⊢
+  by_cases hs : 0xD800 ≤ c ∧ c < 0xE000
+  · have : encCp false c = none := by
+      unfold encCp
+      rw [if_neg (by omega), if_neg (by omega), if_pos (by omega), if_pos hs]
+      simp
+    rw [this] at h; cases h
+  · have : encCp true c = encCp false c := by
+      unfold encCp
+      simp only [if_neg hs]
+    rw [this]; exact h
+
+theorem decodeStep_nil : decodeStep [] = none := by simp [decodeStep]
+
+/-- a byte at which no well-formed sequence starts is not ASCII -/
+theorem decodeStep_none_ge {b0 : Nat} {rest : NBytes} (h : decodeStep (b0 :: rest) = none) : 0x80 ≤ b0 := by
+  simp only [decodeStep] at h
+  split at h
+  · cases h
+  · omega
+
+/-- the lone surrogate the `surrogateescape` decoder produces encodes back to the byte -/
+theorem encCp_escape {b : Nat} (h1 : 0x80 ≤ b) (h2 : b < 256) : encCp true (0xDC00 + b) = some [b] := by
+  unfold encCp
+  rw [if_neg (by omega), if_neg (by omega), if_pos (by omega), if_pos (by omega), if_pos ⟨rfl, by omega, by omega⟩]
+  simp
+
+theorem isBytes_cons {b : Nat} {l : List Nat} : isBytes (b :: l) = true ↔ b < 256 ∧ isBytes l = true := by
+  simp [isBytes]
+
+theorem isBytes_append {l1 l2 : List Nat} : isBytes (l1 ++ l2) = true ↔ isBytes l1 = true ∧ isBytes l2 = true := by
+  simp [isBytes]
+
+theorem encodeUtf8_cons (se : Bool) (c : Nat) (cs : Str) :
+    encodeUtf8 se (c :: cs) = (encCp se c).bind (fun p => (encodeUtf8 se cs).map (p ++ ·)) := by
+  rw [encodeUtf8]
+  cases encCp se c <;> cases encodeUtf8 se cs <;> rfl
+
+theorem decodeSE_of_step {b0 : Nat} {rest : NBytes} {c : Nat} {r : NBytes}
+    (h : decodeStep (b0 :: rest) = some (c, r)) : decodeSE (b0 :: rest) = c :: decodeSE r := by
+  rw [decodeSE]
+  split
+  · rename_i c' r' h'
+    rw [h] at h'
+    simp only [Option.some.injEq, Prod.mk.injEq] at h'
+    obtain ⟨rfl, rfl⟩ := h'
+    rfl
+  · rename_i h'
+    rw [h] at h'; cases h'
+
+theorem decodeSE_of_none {b0 : Nat} {rest : NBytes}
+    (h : decodeStep (b0 :: rest) = none) : decodeSE (b0 :: rest) = (0xDC00 + b0) :: decodeSE rest := by
+  rw [decodeSE]
+  split
+  · rename_i c' r' h'
+    rw [h] at h'; cases h'
+  · rfl
+
+/-- `encode(decode(b, surrogateescape), surrogateescape) = b` for every byte string -/
+theorem encode_decodeSE (bs : NBytes) (hb : isBytes bs = true) : encodeUtf8 true (decodeSE bs) = some bs := by
+  induction bs using decodeSE.induct with
+  | case1 => simp [decodeSE, encodeUtf8]
+  | case2 b0 rest c r h ih =>
+    rw [decodeSE_of_step h]
+    have hs := decodeStep_sound' h
+    cases hp : encCp false c with
+    | none => simp [hp] at hs
+    | some p =>
+      simp only [hp, Option.map_some, Option.some.injEq] at hs
+      have hr : isBytes r = true := by
+        rw [← hs] at hb; exact (isBytes_append.mp hb).2
+      rw [encodeUtf8_cons, encCp_true_of_false hp, ih hr, ← hs]
+      rfl
+  | case3 b0 rest h ih =>
+    rw [decodeSE_of_none h]
+    have hb' := isBytes_cons.mp hb
+    rw [encodeUtf8_cons, encCp_escape (decodeStep_none_ge h) hb'.1, ih hb'.2]
+    rfl
+
+theorem decodeStrict_of_step {l : NBytes} {c : Nat} {r : NBytes} (h : decodeStep l = some (c, r)) :
+    decodeStrict l = (decodeStrict r).map (c :: ·) := by
+  cases l with
+  | nil => simp [decodeStep] at h
+  | cons b0 rest =>
+    rw [decodeStrict]
+    split
+    · rename_i c' r' h'
+      rw [h] at h'
+      simp only [Option.some.injEq, Prod.mk.injEq] at h'
+      obtain ⟨rfl, rfl⟩ := h'
+      rfl
+    · rename_i h'
+      rw [h] at h'; cases h'
+
+theorem encCp_ne_nil {se : Bool} {c : Nat} {p : NBytes} (h : encCp se c = some p) : p ≠ [] := by
+  unfold encCp at h
   repeat' split at h
-  all_goals try (simp at h; done)
-  all_goals (
-    repeat' split
-    all_goals first
-      | exact h
-      | omega
-      | simp_all)
+  all_goals first
+    | (simp at h; done)
+    | (simp only [Option.some.injEq] at h; subst h; simp)
+
+/-- `decode(encode(s)) = s` (strict) -/
+theorem decodeStrict_encode {s : Str} {bs : NBytes} (h : encodeUtf8 false s = some bs) :
+    decodeStrict bs = some s := by
+  induction s generalizing bs with
+  | nil => simp [encodeUtf8] at h; subst h; simp [decodeStrict]
+  | cons c cs ih =>
+    rw [encodeUtf8_cons] at h
+    cases hp : encCp false c with
+    | none => simp [hp] at h
+    | some p =>
+      cases hq : encodeUtf8 false cs with
+      | none => simp [hp, hq] at h
+      | some q =>
+        simp only [hp, hq, Option.bind_some, Option.map_some, Option.some.injEq] at h
+        subst h
+        rw [decodeStrict_of_step (decodeStep_complete q hp), ih hq]
+        rfl
+
+/-- `encode(decode(b)) = b` (strict), whenever `b` decodes -/
+theorem encode_decodeStrict (bs : NBytes) {s : Str} (h : decodeStrict bs = some s) :
+    encodeUtf8 false s = some bs := by
+  induction bs using decodeStrict.induct generalizing s with
+  | case1 => simp [decodeStrict] at h; subst h; simp [encodeUtf8]
+  | case2 b0 rest c r hstep ih =>
+    rw [decodeStrict_of_step hstep] at h
+    cases hr : decodeStrict r with
+    | none => simp [hr] at h
+    | some t =>
+      simp only [hr, Option.map_some, Option.some.injEq] at h
+      subst h
+      have hs := decodeStep_sound' hstep
+      cases hp : encCp false c with
+      | none => simp [hp] at hs
+      | some p =>
+        simp only [hp, Option.map_some, Option.some.injEq] at hs
+        rw [encodeUtf8_cons, hp, ih hr, ← hs]
+        rfl
+  | case3 b0 rest hstep =>
+    rw [decodeStrict] at h
+    split at h
+    · rename_i h'; rw [hstep] at h'; cases h'
+    · cases h
+
+/-- ASCII strings are their own UTF-8 encoding -/
+theorem encodeUtf8_ascii (se : Bool) (s : Str) (h : s.all (· < 128) = true) : encodeUtf8 se s = some s := by
+  induction s with
+  | nil => simp [encodeUtf8]
+  | cons c cs ih =>
+    simp only [List.all_cons, Bool.and_eq_true, decide_eq_true_eq] at h
+    have : encCp se c = some [c] := by unfold encCp; rw [if_pos h.1]
+    rw [encodeUtf8_cons, ih h.2, this]; rfl
+
+theorem decodeStrict_ascii (s : Str) (h : s.all (· < 128) = true) : decodeStrict s = some s :=
+  decodeStrict_encode (encodeUtf8_ascii false s h)
+
+theorem encodeUtf8_isBytes {se : Bool} {s : Str} {bs : NBytes} (h : encodeUtf8 se s = some bs) :
+    isBytes bs = true := by
+  induction s generalizing bs with
+  | nil => simp [encodeUtf8] at h; subst h; rfl
+  | cons c cs ih =>
+    rw [encodeUtf8_cons] at h
+    cases hp : encCp se c with
+    | none => simp [hp] at h
+    | some p =>
+      cases hq : encodeUtf8 se cs with
+      | none => simp [hp, hq] at h
+      | some q =>
+        simp only [hp, hq, Option.bind_some, Option.map_some, Option.some.injEq] at h
+        subst h
+        rw [isBytes_append]
+        refine ⟨?_, ih hq⟩
+        unfold encCp at hp
+        repeat' split at hp
+        all_goals first
+          | (simp at hp; done)
+          | (simp only [Option.some.injEq] at hp; subst hp
+             simp only [isBytes, List.all_cons, List.all_nil, Bool.and_true, Bool.and_eq_true, decide_eq_true_eq]
+             omega)
 
 end BreezyVerif.C36
